@@ -15,6 +15,10 @@ RECEIVER_HINTS = {
     ("batchie.core.ThetaHolder.concat", "first"): "batchie.core.ThetaHolder",
     ("batchie.distance_calculation.ChunkedDistanceMatrix.concat", "accumulator"):
         "batchie.distance_calculation.ChunkedDistanceMatrix",
+    # the same fact independent of what the fold variable is called: in these two class methods a receiver whose type cannot be
+    # inferred is an element of the list being folded, i.e. an instance of the declaring class
+    ("batchie.core.ThetaHolder.concat", "*"): "batchie.core.ThetaHolder",
+    ("batchie.distance_calculation.ChunkedDistanceMatrix.concat", "*"): "batchie.distance_calculation.ChunkedDistanceMatrix",
 }
 
 
